@@ -12,7 +12,7 @@ TL = "<naive::time::NaiveTime as traits::Timelike>::"
 def run(chk, tier):
     P = Prog("default")
     chk.configs.add("default")
-    for r in (r_boxes, r_delegates, r_with, r_hms, r_offset_copy, r_sub, r_operators, r_datetime_core, r_absint):
+    for r in (r_boxes, r_delegates, r_with, r_hms, r_offset_copy, r_sub, r_operators, r_datetime_core, r_hour12, r_absint):
         chk.guarded(r, P, tier)
     chk.assume("the leap-second stepping rules of overflowing_add_signed / signed_duration_since (which branch applies to which operands) are numerical and not decided")
     return {
@@ -259,3 +259,21 @@ def r_datetime_core(chk, P, tier):
     fn = "traits::Timelike::num_seconds_from_midnight"
     cs = {c.split("::")[-1] for c in callees(P, fn)}
     chk.expect(cs == {"hour", "minute", "second"}, "num_seconds_from_midnight", "the provided Timelike::num_seconds_from_midnight reads %s (expected hour, minute, second)" % sorted(cs), loc=P.loc(fn))
+
+
+def r_hour12(chk, P, tier):
+    """the provided Timelike::hour12 as a finite map over the complete domain of hour(): 0 -> (AM, 12), 1..11 -> (AM, h), 12 -> (PM, 12), 13..23 -> (PM, h-12)"""
+    chk.rule("MAP.hour12", "Timelike::hour12 evaluated for every hour 0..=23 is (h >= 12, (h + 11) % 12 + 1)", floor=24)
+    fn = "traits::Timelike::hour12"
+    hs = {pp(c) for p_ in Sym(P, fn).paths() for t in [x[1] for x in p_.conds] + ([p_.ret] if p_.end[0] == "return" else []) for c in find_calls(t) if c[1].endswith("Timelike::hour")}
+    if len(hs) != 1:
+        raise AnchorLost(fn + ": expected exactly one hour() term, found %s" % sorted(hs))
+    key = hs.pop()
+    fo = Folder(P)
+    for h in range(24):
+        try:
+            got = show(fo.call(fn, [("arg", 1)], bind={key: h}))
+        except Unknown as e:
+            got = "unknown: %s" % e
+        want = (h >= 12, (h + 11) % 12 + 1)
+        chk.expect(got == want or got == (int(want[0]), want[1]), "hour %d" % h, "hour12() of hour %d is %s, expected %s" % (h, got, want), loc=P.loc(fn))
